@@ -513,6 +513,10 @@ def wrap(
     Also ensures that the `initial_indent` and `subsequent_indent` are not taken into
     account for the wrapping position.
     """
+    # Only ever break lines at whitespace: never inside a long word (identifiers,
+    # paths, URLs) and never after a hyphen
+    kwargs.setdefault("break_long_words", False)
+    kwargs.setdefault("break_on_hyphens", False)
     [first, *rest] = [
         line
         for paragraph in text.splitlines()
